@@ -428,6 +428,22 @@ pub fn scenario(rng: &mut Rng, i: u64) -> (String, FsSpec, TaskSpec) {
         }
         program(&chosen, &mut rng.sub("program"))
     };
+    // A quarter of the programs are rejected ones: a semantic error is appended whose diagnostic
+    // could mention (or choose among) several declarations
+    let src = if rng.chance(1, 4) {
+        let tail = [
+            "int ovl_err(int x) { return 0; }\nint ovl_err(float x) { return 1; }\nint ovl_err(uint x) { return 2; }\nstatic int ovl_use = ovl_err(1);\n",
+            "void unknown_use() { int local_q = 1; local_q = not_declared_anywhere + local_q; }\n",
+            "static int dup_global;\nstatic float dup_global;\n",
+            "int argc_err(int a, int b) { return a; }\nint argc_err(float a) { return 1; }\nstatic int argc_use = argc_err(1, 2, 3);\n",
+            "enum DupE { DA, DB, DA };\n",
+            "struct DupS { int m; float m; };\n",
+            "void bad_member() { float4 v = float4(0, 0, 0, 0); v.not_a_member = 1; }\n",
+        ][rng.below(7) as usize];
+        format!("{src}{tail}")
+    } else {
+        src
+    };
     let mut t = TaskSpec::compile(0, "test.rssl", target);
     t.buffer_address = target == Target::Vk;
     t.validate_layout = rng.chance(1, 2);
